@@ -396,7 +396,12 @@ impl Ctx {
                 };
                 let n = self.rng.below(5) as usize;
                 let ids: Vec<u64> = (0..n).map(|_| self.fresh()).collect();
-                let pulls = self.rng.below(e.saturating_sub(s) as u64 + 2) as usize;
+                let npulls = self.rng.below(e.saturating_sub(s) as u64 + 2) as usize;
+                // `Splice` is a DoubleEndedIterator: pulls from both ends (what is left in the middle is dropped by `Splice::drop`)
+                let pulls: Vec<u8> = (0..npulls).map(|_| if self.rng.chance(3, 5) { b'f' } else { b'b' }).collect();
+                if pulls.contains(&b'b') && s <= e && e <= len && npulls < e - s {
+                    self.count("splice:pulled from the back, something left to drop");
+                }
                 let hint = match self.rng.below(4) {
                     0 => 0,
                     1 => self.rng.below(3) as usize,
